@@ -268,3 +268,37 @@ func VerifBroadcastConcurrentClose() {
 	zzverif.Assert(len(ch) == atReturn[0], "nothing_delivered_after_a_close_returned")
 	zzverif.Cover("broadcast_concurrent_close_done")
 }
+
+// Close while a subscriber is stalled: it has never read and has not cancelled, values are buffered for it (one held
+// by its forwarder, more in its buffer), a second subscriber reads normally. Close returns nevertheless - it does not
+// wait for the stalled subscriber - and the healthy subscriber's forwarder is gone afterwards.
+//
+//verif:harness prop=C11 name=broadcast_close_with_stalled_subscriber threads=6 sched=delay preempt=2 t_preempt=3 unwind=14 witness=lenient
+func VerifBroadcastCloseStalled() {
+	b := New[vMsg]()
+	stalled := make(chan vMsg) // never read, never cancelled
+	c2 := &vConsumer{ch: make(chan vMsg)}
+	b.Subscribe(context.Background(), stalled)
+	b.Subscribe(context.Background(), c2.ch)
+	go vConsume(c2)
+	n := 1 + zzverif.Choose("values", 3)
+	for i := 1; i <= n; i++ {
+		b.Broadcast(vMsg{i, i})
+	}
+	if zzverif.Bool("settle_before_close") {
+		zzverif.WaitQuiescent()
+	}
+	closed := make(chan struct{})
+	go func() {
+		zzverif.MustFinish()
+		b.Close()
+		close(closed)
+	}()
+	<-closed
+	zzverif.WaitQuiescent()
+	for i := 1; i <= n; i++ {
+		zzverif.Assert(vCount(c2.got, i) <= 1, "at_most_once")
+	}
+	zzverif.Assert(zzverif.ThreadsAliveIs(1), "forwarders_gone_after_close") // only the healthy consumer is left
+	zzverif.Cover("broadcast_close_stalled_done")
+}
